@@ -109,6 +109,42 @@ def container_cases(ctx):
     return n
 
 
+def borrowed_and_name_cases(ctx):
+    """rejected calls on waveforms that borrow memory they can neither resize nor (for read-only memory) write; refused names"""
+    from nitypes.waveform import DigitalWaveform
+    rng = ctx.rng
+    observe = H.observe
+
+    def judge(info, w, before, o, after):
+        if o[0] == "err" and after != before:
+            diff = [k for k in set(before) | set(after) if before.get(k) != after.get(k)]
+            ctx.violation(what="rejected call on a borrowed buffer changed the object", error=show(o)[:120], changed=str(diff),
+                          observed=str({k: after.get(k) for k in diff})[:300], required=str({k: before.get(k) for k in diff})[:300], **info)
+            return False
+        return True
+    n = H.borrowed_cases(ctx, judge)
+    # signal names: a value that is not a str is refused and changes nothing
+    for nsig in (1, 3):
+        for prior in (None, "a, b, c", " x ,y"):
+            for read_first in (False, True):
+                for bad in (5, None, b"n", 1.5, ["a"]):
+                    w = DigitalWaveform(2, nsig, extended_properties=None if prior is None else {"NI_LineNames": prior})
+                    if read_first:
+                        [w.signals[i].name for i in range(nsig)]
+                    before = observe(w)
+                    o = outcome(lambda: setattr(w.signals[rng.randrange(nsig)], "name", bad))
+                    after = observe(w)
+                    n += 1
+                    ctx.case(("name-nonstr", nsig, prior, read_first, repr(bad)))
+                    if o[0] != "err":
+                        ctx.violation(what="a non-str signal name was accepted", value=repr(bad), observed=show(o), required="TypeError")
+                    elif after != before:
+                        ctx.violation(what="rejected signal name changed the waveform", value=repr(bad), observed=str(after["names"]),
+                                      required=str(before["names"]))
+                        return n
+    return n
+
+
 def run(ctx):
     world = H.World(ctx.rng)
     n_hist = 200 if ctx.quick else 6000
@@ -134,6 +170,7 @@ def run(ctx):
                           observed="argument bytes / timestamp list differ", required="unchanged")
     ctx.extra["rejected_calls_checked"] = rejected
     ctx.extra["container_calls"] = container_cases(ctx)
+    ctx.extra["borrowed_buffer_calls"] = borrowed_and_name_cases(ctx)
     ctx.extra["histories"] = n_hist
     ctx.extra["model_lines_compared"] = H.compare_with_model(ctx, world)
     errs = [(l, e) for l, e in zip(world.lines, world.expect) if e.startswith("err")]
